@@ -272,6 +272,19 @@ func (m *MonC07) OnEvent(w *World, rec *StepRec) []*Violation {
 		m.own()
 		m.last[i] = cloneHS(hs)
 	}
+	// async storage writes: the hard state a Ready exposes is what its MsgStorageAppend tells the
+	// append thread to persist (otherwise it is exposed but never becomes durable)
+	if rd := rec.Ready; rd != nil && n.Cfg.Async && rd.HardState != nil && (rd.HardState.GetTerm() != 0 || rd.HardState.GetVote() != 0 || rd.HardState.GetCommit() != 0) {
+		carried := false
+		for _, q := range rd.Messages {
+			if q.GetType() == pb.MsgStorageAppend {
+				carried = q.GetTerm() == rd.HardState.GetTerm() && q.GetVote() == rd.HardState.GetVote() && q.GetCommit() == rd.HardState.GetCommit()
+			}
+		}
+		if !carried {
+			out = append(out, &Violation{"C07", "exposed-hard-state-is-persisted", fmt.Sprintf("node %d exposed hard state %s in a Ready whose MsgStorageAppend does not carry it", n.ID, hsStr(rd.HardState))})
+		}
+	}
 	// messages of a composite Ready+crash event were released before the crash: they are judged
 	// against the term this incarnation started from, not the next one's
 	for _, msg := range rec.Released {
